@@ -2,7 +2,6 @@ package pgdump
 
 import (
 	"fmt"
-	"os"
 	"path/filepath"
 	"regexp"
 	"sort"
@@ -156,7 +155,7 @@ func FindDroppedColumns(dataDir, dbName string) (*DroppedColumnsResult, error) {
 	}
 	
 	// First, find the database OID
-	dbData, err := os.ReadFile(filepath.Join(dataDir, "global", "1262"))
+	dbData, err := readRegularFile(filepath.Join(dataDir, "global", "1262"))
 	if err != nil {
 		return nil, fmt.Errorf("cannot read pg_database: %w", err)
 	}
@@ -188,13 +187,13 @@ func droppedColumnsOfDB(dataDir string, dbOID uint32) ([]DroppedColumnInfo, erro
 	basePath := filepath.Join(dataDir, "base", strconv.FormatUint(uint64(dbOID), 10))
 	
 	// Read pg_attribute
-	attrData, err := os.ReadFile(filepath.Join(basePath, "1249"))
+	attrData, err := readRegularFile(filepath.Join(basePath, "1249"))
 	if err != nil {
 		return nil, fmt.Errorf("cannot read pg_attribute: %w", err)
 	}
 	
 	// Read pg_class for table names
-	classData, err := os.ReadFile(filepath.Join(basePath, "1259"))
+	classData, err := readRegularFile(filepath.Join(basePath, "1259"))
 	if err != nil {
 		return nil, fmt.Errorf("cannot read pg_class: %w", err)
 	}
@@ -275,7 +274,7 @@ func parseDroppedColumns(data []byte, tableNames map[uint32]string) []DroppedCol
 // RecoverDroppedColumnData attempts to recover data from a dropped column
 func RecoverDroppedColumnData(dataDir, dbName, tableName string, attNum int) (*DroppedColumnData, error) {
 	// Find database OID
-	dbData, err := os.ReadFile(filepath.Join(dataDir, "global", "1262"))
+	dbData, err := readRegularFile(filepath.Join(dataDir, "global", "1262"))
 	if err != nil {
 		return nil, err
 	}
@@ -294,7 +293,7 @@ func RecoverDroppedColumnData(dataDir, dbName, tableName string, attNum int) (*D
 	basePath := filepath.Join(dataDir, "base", strconv.FormatUint(uint64(dbOID), 10))
 	
 	// Find table filenode
-	classData, err := os.ReadFile(filepath.Join(basePath, "1259"))
+	classData, err := readRegularFile(filepath.Join(basePath, "1259"))
 	if err != nil {
 		return nil, err
 	}
@@ -313,7 +312,7 @@ func RecoverDroppedColumnData(dataDir, dbName, tableName string, attNum int) (*D
 	}
 	
 	// Get all attributes including dropped ones
-	attrData, err := os.ReadFile(filepath.Join(basePath, "1249"))
+	attrData, err := readRegularFile(filepath.Join(basePath, "1249"))
 	if err != nil {
 		return nil, err
 	}
@@ -338,7 +337,7 @@ func RecoverDroppedColumnData(dataDir, dbName, tableName string, attNum int) (*D
 	}
 	
 	// Read table data
-	tableData, err := os.ReadFile(filepath.Join(basePath, strconv.FormatUint(uint64(tableInfo.Filenode), 10)))
+	tableData, err := readRegularFile(filepath.Join(basePath, strconv.FormatUint(uint64(tableInfo.Filenode), 10)))
 	if err != nil {
 		return nil, fmt.Errorf("cannot read table data: %w", err)
 	}
@@ -446,7 +445,7 @@ func ScanDroppedColumns(dataDir string) ([]DroppedColumnsResult, error) {
 	var results []DroppedColumnsResult
 	
 	// Read database list
-	dbData, err := os.ReadFile(filepath.Join(dataDir, "global", "1262"))
+	dbData, err := readRegularFile(filepath.Join(dataDir, "global", "1262"))
 	if err != nil {
 		return nil, err
 	}
@@ -495,7 +494,7 @@ func ScanDroppedColumns(dataDir string) ([]DroppedColumnsResult, error) {
 
 // GetDroppedColumnSchema returns a schema that includes dropped columns for a table
 func GetDroppedColumnSchema(dataDir, dbName, tableName string) ([]Column, error) {
-	dbData, err := os.ReadFile(filepath.Join(dataDir, "global", "1262"))
+	dbData, err := readRegularFile(filepath.Join(dataDir, "global", "1262"))
 	if err != nil {
 		return nil, err
 	}
@@ -513,7 +512,7 @@ func GetDroppedColumnSchema(dataDir, dbName, tableName string) ([]Column, error)
 	
 	basePath := filepath.Join(dataDir, "base", strconv.FormatUint(uint64(dbOID), 10))
 	
-	classData, err := os.ReadFile(filepath.Join(basePath, "1259"))
+	classData, err := readRegularFile(filepath.Join(basePath, "1259"))
 	if err != nil {
 		return nil, err
 	}
@@ -530,7 +529,7 @@ func GetDroppedColumnSchema(dataDir, dbName, tableName string) ([]Column, error)
 		return nil, fmt.Errorf("table %q not found", tableName)
 	}
 	
-	attrData, err := os.ReadFile(filepath.Join(basePath, "1249"))
+	attrData, err := readRegularFile(filepath.Join(basePath, "1249"))
 	if err != nil {
 		return nil, err
 	}
